@@ -224,6 +224,55 @@ pub fn run(ctx: &'static Ctx) {
             refuse(&s, "non-ascii-dash");
         }
     }
+    // every placement of exactly four dashes in a 36-character string of hex digits (58 905 strings): only 8-4-4-4-12 is a UUID
+    {
+        let digits: Vec<u8> = good.bytes().filter(|b| *b != b'-').collect();
+        for a in 0..36usize {
+            for b in (a + 1)..36 {
+                for c in (b + 1)..36 {
+                    for d in (c + 1)..36 {
+                        if [a, b, c, d] == [8, 13, 18, 23] {
+                            continue;
+                        }
+                        let mut k = 0;
+                        let st: Vec<u8> = (0..36).map(|i| if i == a || i == b || i == c || i == d { b'-' } else { k += 1; digits[k - 1] }).collect();
+                        refuse(std::str::from_utf8(&st).unwrap(), "dash-placement");
+                    }
+                }
+            }
+        }
+        // three and five dashes at the canonical places minus/plus one
+        for drop in [8usize, 13, 18, 23] {
+            let mut v = good.as_bytes().to_vec();
+            v[drop] = b'a';
+            refuse(std::str::from_utf8(&v).unwrap(), "dash-count");
+        }
+        for extra in hexpos.iter() {
+            let mut v = good.as_bytes().to_vec();
+            v[*extra] = b'-';
+            refuse(std::str::from_utf8(&v).unwrap(), "dash-count");
+        }
+    }
+    // every pair of positions replaced by characters from a small set (two simultaneous departures from a valid string)
+    {
+        let set = [b'-', b'0', b'f', b'g', b' ', b'F'];
+        for i in 0..36usize {
+            for j in (i + 1)..36 {
+                for x in set {
+                    for y in set {
+                        let mut v = good.as_bytes().to_vec();
+                        v[i] = x;
+                        v[j] = y;
+                        let is_hex = |c: u8| c.is_ascii_hexdigit();
+                        let well = (0..36).all(|p| if [8, 13, 18, 23].contains(&p) { v[p] == b'-' } else { is_hex(v[p]) });
+                        if !well {
+                            refuse(std::str::from_utf8(&v).unwrap(), "two-positions");
+                        }
+                    }
+                }
+            }
+        }
+    }
     ctx.st(u + mal + bad);
     ctx.engine("E3.uuid", json!({"valid_strings": u, "malformed_strings": mal, "eisa_malformed": bad}));
     for i in 0..(u + mal).min(100000) {
@@ -233,5 +282,5 @@ pub fn run(ctx: &'static Ctx) {
     ctx.force_sample(json!({"uuid": "01234567-89ab-cdef-fedc-ba9876543210", "expected_buffer": "67452301 ab89 efcd fedc ba9876543210"}));
 }
 
-pub const RULE: &str = "EISA: thorough = all 26^3*16^4 ids; quick = each position over its full set x 3 fillers + all letter triples x 256 digit patterns. UUID: each of 32 nibble positions x 16 digits x 2 cases x 3 backgrounds, seed-derived strings, (thorough) all position pairs; malformed: every wrong length 0..40, a digit at each dash, 4 bad characters at each nibble. distinct = UUID strings tried";
+pub const RULE: &str = "EISA: thorough = all 26^3*16^4 ids; quick = each position over its full set x 3 fillers + all letter triples x 256 digit patterns. UUID: each of 32 nibble positions x 16 digits x 2 cases x 3 backgrounds, seed-derived strings, (thorough) all position pairs; malformed: every wrong length 0..40, a digit at each dash, 12 bad characters at each nibble, every placement of four dashes among 36 positions, every pair of positions over a 6-character set. distinct = UUID strings tried";
 pub const ASSUME: &[&str] = &["UUID space is sampled structurally (positions x digits, pairs), not exhaustively", "lower-case EISA letters are outside the property's domain"];
